@@ -170,6 +170,94 @@ def shard_longer(shard):
     return part
 
 
+# --------------------------------------------------------------------------------------------
+# long patterns: the per-pattern bound table as a *guide* to witnesses
+# --------------------------------------------------------------------------------------------
+# The pruned search trusts its bounds completely (there is no final order-isomorphism test), and a
+# bound computed from anything but the tight left floor / left ceiling admits a false occurrence
+# in SOME text.  Exhaustive pairs stop at text length 7-8, so for longer patterns the documented
+# helper `left_floor_and_ceiling` is compared with its definition; a deviation is NOT reported by
+# itself - it is used to look for a (pattern, text) pair on which the occurrences are really wrong
+# (texts: one- and two-point extensions of the pattern and of its value-adjacent neighbours), and
+# only such a pair is reported, as an ordinary `occ` violation.
+
+def ref_floor_ceiling(p):
+    out = []
+    for i, v in enumerate(p):
+        fl = [j for j in range(i) if p[j] < v]
+        ce = [j for j in range(i) if p[j] > v]
+        out.append((max(fl, key=lambda j: p[j]) if fl else -1,
+                    min(ce, key=lambda j: p[j]) if ce else -1))
+    return out
+
+
+def witness_texts(p):
+    """p, its value-adjacent neighbours, and all their one- and two-point extensions."""
+    k = len(p)
+    bases = [tuple(p)]
+    for v in range(k - 1):
+        q = list(p)
+        i, j = q.index(v), q.index(v + 1)
+        q[i], q[j] = q[j], q[i]
+        bases.append(tuple(q))
+    seen = set()
+    for q in bases:
+        for i in range(len(q) + 1):
+            for v in range(len(q) + 1):
+                t1 = R.insert_point(q, i, v)
+                if t1 not in seen:
+                    seen.add(t1)
+                    yield t1
+    for q in bases:
+        for i in range(len(q) + 1):
+            for v in range(len(q) + 1):
+                t1 = R.insert_point(q, i, v)
+                for i2 in range(len(t1) + 1):
+                    for v2 in range(len(t1) + 1):
+                        t2 = R.insert_point(t1, i2, v2)
+                        if t2 not in seen:
+                            seen.add(t2)
+                            yield t2
+
+
+def shard_table(shard):
+    n, lo, hi = shard
+    Perm = _P()
+    part = Partial()
+    if not hasattr(Perm, "left_floor_and_ceiling"):
+        part.bump("table_helper_absent")
+        return part
+    for p in R.perms(n)[lo:hi]:
+        P = Perm(p)
+        try:
+            got = [tuple(x) for x in P.left_floor_and_ceiling()]
+        except Exception as exc:  # noqa
+            got = repr(exc)
+        part.add(1, 1 if n >= 3 else 0)
+        if got == ref_floor_ceiling(p):
+            continue
+        part.bump("table_deviations")
+        found = False
+        for t in witness_texts(p):
+            ref = R.occurrences(p, t)
+            try:
+                occ = list(Perm(p).occurrences_in(Perm(t)))
+            except Exception as exc:  # noqa
+                occ = repr(exc)
+            if occ != ref:
+                part.violation("occ", {"patt": p, "text": t},
+                               {"expected": ref, "got": occ,
+                                "found_via": "left_floor_and_ceiling deviates from its definition",
+                                "table_got": got, "table_expected": ref_floor_ceiling(p)})
+                found = True
+                break
+        if not found:
+            part.bump("table_deviation_without_witness")
+            part.sample({"patt": p, "table_got": got, "note": "no wrong occurrence found among "
+                         "the extensions tried; not reported"}, cap=2)
+    return part
+
+
 def chunks(n, per):
     import math
     total = math.factorial(n)
@@ -378,6 +466,17 @@ def run(ctx, only=None):
         ctx.bounds["pairs"] = [{"text_len": n, "max_patt_len": min(k, n), "derived_observers": d}
                                for n, k, d in plan]
         ctx.section("pairs", evaluations=ctx.evals)
+    if want("table"):
+        e0 = ctx.evals
+        top = 8 if quick else 9
+        shards = [(n, lo, hi) for n in range(0, top + 1)
+                  for lo, hi in chunks(n, 2520 if n <= 8 else 5040)]
+        ctx.pmap(shard_table, shards)
+        ctx.bounds["table"] = ("every pattern of length <= %d: left floor/ceiling helper against its "
+                               "definition; a deviation only guides the search for a wrong "
+                               "(pattern, text) pair among extensions by <= 2 points" % top)
+        ctx.section("table", evaluations=ctx.evals - e0,
+                    deviations=ctx.counters.get("table_deviations", 0))
     if want("longer"):
         ctx.pmap(shard_longer, [(n,) for n in range(0, 5)])
     if want("multi"):
